@@ -205,6 +205,10 @@ def conclude(ctx, t0, out_dir=None, quiet=False, write=True,
                  'query, table entry) located by role in the current '
                  'source; distinct = distinct (rule, construct) pairs'),
         'samples': samples[:60],
+        'decision_table_valuations': getattr(ctx, 'stats', {}).get(
+            'decision_table_valuations', 0),
+        'decision_tables': getattr(ctx, 'stats', {}).get(
+            'decision_tables', []),
         'rules': [{'id': r.rid, 'template': r.template, 'title': r.title,
                    'instances': len(r.instances),
                    'violations': len(r.violations)} for r in ctx.rules],
